@@ -255,7 +255,7 @@ func (w *World) CheckBest(s Snapshot) string {
 	if s.Err != "" {
 		return ""
 	}
-	n := w.G.ByHash[s.BestHash]
+	n := w.G.Lookup(s.BestHash)
 	if n == nil {
 		return fmt.Sprintf("BestBlock reports hash %v at height %d which is not a block of the generated tree", s.BestHash, s.BestHeight)
 	}
@@ -337,7 +337,7 @@ func (w *World) ValidateStored(truth bool) string {
 	}
 	if truth {
 		for h := 1; h < len(fc); h++ {
-			n := w.G.ByHash[chain[h].BlockHash()]
+			n := w.G.Lookup(chain[h].BlockHash())
 			if n == nil {
 				return "stored block unknown to the generator"
 			}
